@@ -199,6 +199,10 @@ func c16Walk(g geom.Geometry, ct geom.CoordinatesType, path string) string {
 			if s.Get(i).Type != ct {
 				return fmt.Sprintf("%s: %s.Get(%d).Type = %s, want %s", path, what, i, s.Get(i).Type, ct)
 			}
+			// documented on geom.Coordinates: Z (M) "is zero for non-3D (non-measure) coordinate types"
+			if c := s.Get(i); (!ct.Is3D() && c.Z != 0) || (!ct.IsMeasured() && c.M != 0) {
+				return fmt.Sprintf("%s: %s.Get(%d) = %+v carries a Z/M value its coordinate type %s does not have", path, what, i, c, ct)
+			}
 		}
 		return ""
 	}
@@ -208,6 +212,9 @@ func c16Walk(g geom.Geometry, ct geom.CoordinatesType, path string) string {
 		}
 		if c, ok := p.Coordinates(); ok && c.Type != ct {
 			return fmt.Sprintf("%s: %s.Coordinates().Type = %s, want %s", path, what, c.Type, ct)
+		}
+		if c, ok := p.Coordinates(); ok && ((!ct.Is3D() && c.Z != 0) || (!ct.IsMeasured() && c.M != 0)) {
+			return fmt.Sprintf("%s: %s.Coordinates() = %+v carries a Z/M value its coordinate type %s does not have (documented: zero)", path, what, c, ct)
 		}
 		return ""
 	}
